@@ -50,6 +50,15 @@
 (* environment object read twice, and one DiskSink written twice (append:   *)
 (* LfBytes(a) \o LfBytes(b) reads back as a \o b, invariant AppendRead).    *)
 (*                                                                         *)
+(* LONG BODIES.  A text that ends in a terminator can be repeated: the      *)
+(* lines of t \o t are the lines of t followed by the lines of t            *)
+(* (ConcatLines; by induction for any number of repetitions), and a table   *)
+(* file whose data lines are written twice is the table with its rows       *)
+(* twice (ArffRepeat, CsvRepeat, SvmRepeat).  The driver uses this to build *)
+(* long, highly compressible bodies (a piece repeated 50-500 times, files   *)
+(* of >= 1000 rows) whose expected lines / rows are still the spec's, and   *)
+(* delivers them really compressed in many chunk sizes.                    *)
+(*                                                                         *)
 (* Text is a sequence of pieces (one-character strings, or a keyword as    *)
 (* one piece); Str() concatenates them for printing.  "~" stands for a     *)
 (* non-ASCII character (mapped by the driver).  Numbers are tenths.        *)
@@ -154,10 +163,15 @@ AppendRead  == (Mode = "delim" /\ done) =>
                  LET ls == Ref(inp.bytes)
                      wr(xs) == Flat([i \in DOMAIN xs |-> Flat([j \in DOMAIN xs[i] |-> BytesOf(xs[i][j])]) \o <<"LF">>])
                  IN Ref(wr(ls) \o wr(ls)) = ls \o ls
+(* the piece that may be repeated: the text, closed by LF when it does not end in a terminator *)
+TermBytes(bs) == IF bs # <<>> /\ bs[Len(bs)] = "LF" THEN bs ELSE bs \o <<"LF">>
+ConcatLines == (Mode = "delim" /\ done /\ dl.reads = 1) =>
+                 LET t == TermBytes(inp.bytes) IN Ref(t \o t) = Ref(t) \o Ref(t)
 DelimEmit == (Mode = "delim" /\ done /\ dl.reads = 1) =>
                PrintT(ToJson([mode |-> "delim", bytes |-> inp.bytes,
                               cuts |-> [i \in 1..Len(inp.bytes) |-> i \in inp.cuts],
-                              lines |-> [i \in DOMAIN dl.out |-> Str(dl.out[i])]]))
+                              lines |-> [i \in DOMAIN dl.out |-> Str(dl.out[i])],
+                              unit |-> LET u == Ref(TermBytes(inp.bytes)) IN [i \in DOMAIN u |-> Str(u[i])]]))
 
 (***************************************************************************)
 (*                      S H A R E D   L E X I C A L                        *)
@@ -443,6 +457,12 @@ ArffCase == LET sh == ArffShape(inp.shape)
                 file == ArffWrite(sh, inp.sparse, inp.devs)
             IN [t |-> t, file |-> file]
 ArffSound == (Mode = "arff" /\ done) => (LET c == ArffCase IN ArffParse(c.file) = c.t)
+(* the file with everything after its @data line written twice has every row twice *)
+ArffRepeat == (Mode = "arff" /\ done) =>
+                LET c == ArffCase
+                    d == Min({i \in DOMAIN c.file : LET tk == Toks(c.file[i], 1) IN tk # <<>> /\ UnqIs(tk[1], "@data")})
+                    twice == c.file \o SubSeq(c.file, d + 1, Len(c.file))
+                IN ArffParse(twice) = [attrs |-> c.t.attrs, rows |-> c.t.rows \o c.t.rows]
 (* one reader object applied to a history of files: the i-th result depends on the i-th file only *)
 ReadHistory(P(_), files) == [i \in DOMAIN files |-> P(files[i])]
 ArffReuse == (Mode = "arff" /\ done) =>
@@ -520,6 +540,10 @@ CsvReuse == (Mode = "csv" /\ done) =>
                   ds0 == {d \in inp.devs : d.f \in {"hdr", "delim"}}      \* same constructor parameters
                   P(x) == CsvParse(x, CsvOpt(inp.devs, "hdr") = "yes", CsvOpt(inp.devs, "delim"))
               IN ReadHistory(P, <<CsvCase.file, CsvWrite(nc, ds0), CsvCase.file>>) = <<CsvCase.t, CsvTable(nc, ds0), CsvCase.t>>
+CsvRepeat == (Mode = "csv" /\ done) =>
+               LET c == CsvCase
+                   h == IF CsvOpt(inp.devs, "hdr") = "yes" THEN 1 ELSE 0
+               IN CsvParse(c.file \o SubSeq(c.file, h + 1, Len(c.file)), h = 1, CsvOpt(inp.devs, "delim")) = [names |-> c.t.names, rows |-> c.t.rows \o c.t.rows]
 CsvDevOut(d) == [f |-> d.f, v |-> IF d.k # "cell" THEN d.v ELSE Str(d.v.v)]
 CsvEmit == (Mode = "csv" /\ done) =>
    LET c == CsvCase IN
@@ -588,6 +612,10 @@ SvmReuse == (Mode = "svm" /\ done) =>
               LET ds0 == {d \in inp.devs : d.f = "fmt"}
                   P(x) == SvmParse(x, SvmOpt(inp.devs, "fmt") = "manik")
               IN ReadHistory(P, <<SvmWrite(inp.devs), SvmWrite(ds0), SvmWrite(inp.devs)>>) = <<SvmTable(inp.devs), SvmTable(ds0), SvmTable(inp.devs)>>
+SvmRepeat == (Mode = "svm" /\ done) =>
+               LET f == SvmWrite(inp.devs)
+                   h == IF SvmOpt(inp.devs, "fmt") = "manik" THEN 1 ELSE 0
+               IN SvmParse(f \o SubSeq(f, h + 1, Len(f)), h = 1) = SvmTable(inp.devs) \o SvmTable(inp.devs)
 SvmDevOut(d) == [f |-> d.f, v |-> IF d.k = "lex" THEN d.v
                                   ELSE IF d.v.t = "lab" THEN Str(Join(d.v.v, <<",">>))
                                   ELSE Str(Join([k \in DOMAIN d.v.v |-> <<ToString(d.v.v[k][1]), ":", ToString(d.v.v[k][2])>>], <<" ">>))]
